@@ -67,6 +67,11 @@ def scenario(big: bool = False) -> Any:
                 for j, m in enumerate(d["msgs"]):
                     if j > first and j % 2 == (first + 1) % 2 and m["kind"] in ("async", "sync"):
                         m["dup_of"] = first
+        ex = d.pop("extra_args")
+        if ex:
+            for j, m in enumerate(d["msgs"]):
+                if m["kind"] in ("async", "sync") and j % 2 == 0:
+                    m["extra"] = ex
         ph = d.pop("pre_hook")
         if ph is not None:
             d["mws"] = [{"pre_execute": {"async": ph, "fail_on": []}}]
@@ -88,7 +93,9 @@ def scenario(big: bool = False) -> Any:
         "pre_hook": st.sampled_from([None, None, None, False, True, "deferred", "future", "awaitable"]),
         "api_restart": st.sampled_from([False] * 7 + [True]),
         "late_labels": st.sampled_from([False, False, True]),
-        "same_ids": st.sampled_from([False, False, False, True]),      # instant at which the task `dyntask` gets registered on the running worker
+        "same_ids": st.sampled_from([False, False, False, True]),
+        # an additional keyword argument of an unusual but legal value (lone surrogate, 250 levels of nesting, 2**80, emoji)
+        "extra_args": st.sampled_from([None, None, None, "surrogate", "deep", "bigint", "emoji"]),      # instant at which the task `dyntask` gets registered on the running worker
     }).map(fin)
 
 
